@@ -32,12 +32,10 @@ impl Matcher {
             .map(|i| haystack[i].char_class(&self.config))
             .unwrap_or(self.config.initial_char_class);
         let matched = matrix.setup::<INDICES, _>(needle, prev_class, &self.config, start as u32);
-        // this only happened with unicode haystacks, for ASCII the prefilter handles all rejects
+        // this only happens with unicode haystacks (for ASCII the prefilter handles all rejects)
+        // or if the needle is not normalized (for example an upper case needle char with
+        // `ignore_case` set), such a needle can never match
         if !matched {
-            assert!(
-                !N::ASCII || !H::ASCII,
-                "should have been caught by prefilter"
-            );
             return None;
         }
 
